@@ -1,5 +1,6 @@
 from logging import getLogger
 from pdb import Pdb
+from types import FrameType
 from typing import IO, Any, Callable, ContextManager
 
 from nextline.spawned.exc import NotOnTraceCall
@@ -51,6 +52,27 @@ class CustomizedPdb(Pdb):
         except NotOnTraceCall:
             logger = getLogger(__name__)
             logger.exception('')
+
+    def stop_here(self, frame: FrameType) -> bool:
+        '''Override Bdb.stop_here() to accept a frame without a line number.
+
+        Bdb.stop_here() compares frame.f_lineno with an int. However,
+        frame.f_lineno is None where the bytecode has no line number (PEP 626),
+        e.g., at the implicit return of a script that ends in a loop around an
+        "except ... as" clause. The TypeError would be raised in the script.
+        '''
+        if frame.f_lineno is None and frame is self.stopframe:
+            if self.skip and self.is_skipped_module(frame.f_globals.get('__name__')):
+                return False
+            # As any line number would, unless the `continue` command is issued.
+            return self.stoplineno != -1
+        return super().stop_here(frame)
+
+    def set_until(self, frame: FrameType, lineno: int | None = None) -> None:
+        '''Override Bdb.set_until(), which adds one to frame.f_lineno, for the same reason.'''
+        if lineno is None and frame.f_lineno is None:
+            lineno = 0  # until the frame returns
+        super().set_until(frame, lineno)
 
     def set_continue(self) -> None:
         '''Override Bdb.set_continue() to avoid sys.settrace(None).'''
